@@ -298,36 +298,30 @@ def fault_scenarios(ctx, n):
     return fails, {"fault_scenarios": len(cases), "fault_failures": len(fails)}
 
 
+def side(ctx, proof):
+    cov = {}
+    deep = 1 if proof["build_ok"] else 5
+    fz, cov1 = server_fuzz(ctx, (1500 if ctx.tier == "quick" else 200000) * deep)
+    cov.update(cov1)
+    ff, cov2 = fault_scenarios(ctx, (12 if ctx.tier == "quick" else 300) * deep)
+    cov.update(cov2)
+    return fz + ff, cov
+
+
 def run(ctx):
-    extra = {}
-    fz, cov1 = server_fuzz(ctx, 1500 if ctx.tier == "quick" else 200000)
-    extra.update(cov1)
-    ff, cov2 = fault_scenarios(ctx, 12 if ctx.tier == "quick" else 300)
-    extra.update(cov2)
-    orig_finish = C.Verdict.finish
-
-    def finish(self):
-        for key, what, rp in (fz + ff)[:3]:
-            self.add(key, what, rp)
-        return orig_finish(self)
-
-    C.Verdict.finish = finish
-    try:
-        return L.run_link_property(
-            ctx, PID, gen_grid, grid_oracle,
-            classify=lambda w: "stage-crash" if "crashed the process" in w else ("stage-spins" if "progress" in w else "other"),
-            rule="(1) every toxic type x attribute values from the int64 boundary set {min64,-2^62,-1,0,1,2,99,100,101,2^31,2^53,2^62-1,2^62,"
-                 "max64/100,max64/100+1,max64} x chunk sizes {1,2,99,100,101,32768}, a quarter of them arriving by update on a connection that "
-                 "already carried data; a case that kills or wedges the process is found by the per-case re-run and the watchdog; (2) a real "
-                 "toxiproxy-server fed a fuzzed request stream (model stream, mutated bodies, oversize bodies, raw bytes, boundary attributes) "
-                 "with a health check every 100 requests; (3) fault scenarios on real sockets after which a fresh connection must be served; "
-                 "non-trivial = attribute outside the documented range; distinct by JSON",
-            nontrivial=lambda c: "c07" in c and outside_guard(effective_toxic(c)),
-            assumptions=["memory exhaustion by sheer volume, fd limits and net/http internals are outside the model",
-                         "F5a-d (slicer / bandwidth / latency outside their documented ranges) were repaired in /repo; their inputs stay in the grid"],
-            model_filter=lambda c: not c.get("ops") and L.est_pieces(c) <= 1400, known_class=grid_known, hang_is_failure=True, extra_cov=lambda cs, rs: extra)
-    finally:
-        C.Verdict.finish = orig_finish
+    return L.run_link_property(
+        ctx, PID, gen_grid, grid_oracle,
+        classify=lambda w: "stage-crash" if "crashed the process" in w else ("stage-spins" if "progress" in w else "other"),
+        rule="(1) every toxic type x attribute values from the int64 boundary set {min64,-2^62,-1,0,1,2,99,100,101,2^31,2^53,2^62-1,2^62,"
+             "max64/100,max64/100+1,max64} x chunk sizes {1,2,99,100,101,32768}, a quarter of them arriving by update on a connection that "
+             "already carried data; a case that kills or wedges the process is found by the per-case re-run and the watchdog; (2) a real "
+             "toxiproxy-server fed a fuzzed request stream (model stream, mutated bodies, oversize bodies, raw bytes, boundary attributes) "
+             "with a health check every 100 requests; (3) fault scenarios on real sockets after which a fresh connection must be served; "
+             "non-trivial = attribute outside the documented range; distinct by JSON",
+        nontrivial=lambda c: "c07" in c and outside_guard(effective_toxic(c)),
+        assumptions=["memory exhaustion by sheer volume, fd limits and net/http internals are outside the model",
+                     "F5a-d (slicer / bandwidth / latency outside their documented ranges) were repaired in /repo; their inputs stay in the grid"],
+        model_filter=lambda c: not c.get("ops") and L.est_pieces(c) <= 1400, known_class=grid_known, hang_is_failure=True, side_findings=side)
 
 
 def replay(ctx, path):
